@@ -632,9 +632,20 @@ namespace AIToolbox::POMDP {
 
                 const auto it = findBestAtPoint(nextBelief, std::begin(lbVList), std::end(lbVList), nullptr, unwrap);
 
-                bpAlpha += pomdp.getObservationFunction(a).col(o).cwiseProduct(it->values);
+                if constexpr (IsModelEigen<M>) {
+                    bpAlpha += pomdp.getObservationFunction(a).col(o).cwiseProduct(it->values);
+                } else {
+                    for (size_t s1 = 0; s1 < pomdp.getS(); ++s1)
+                        bpAlpha[s1] += pomdp.getObservationProbability(s1, a, o) * it->values[s1];
+                }
             }
-            immediateRewards.col(a) += pomdp.getDiscount() * pomdp.getTransitionFunction(a) * bpAlpha;
+            if constexpr (IsModelEigen<M>) {
+                immediateRewards.col(a) += pomdp.getDiscount() * pomdp.getTransitionFunction(a) * bpAlpha;
+            } else {
+                for (size_t s = 0; s < pomdp.getS(); ++s)
+                    for (size_t s1 = 0; s1 < pomdp.getS(); ++s1)
+                        immediateRewards(s, a) += pomdp.getDiscount() * pomdp.getTransitionProbability(s, a, s1) * bpAlpha[s1];
+            }
         }
 
         size_t id;
